@@ -46,3 +46,49 @@ package meta
 //@   pure
 //@   decreases o
 //@   ensures [C17] enumNames(o, r0, "Unknown", 1, "Horizontal", 2, "Mirror horizontal", 3, "Rotate 180", 4, "Mirror vertical", 5, "Mirror horizontal and rotate 270 CW", 6, "Rotate 90 CW", 7, "Mirror horizontal and rotate 90 CW", 8, "Rotate 270 CW")
+
+// ---- C16: value types survive round trips; text/binary decoders are total ----
+// Every exported decoder below has NO precondition: its index/slice/division obligations are discharged for arbitrary input.
+
+//@ func (*UUID).decodeCanonical
+//@   props C16
+//@   requires len(t) == 36
+//@   loop 0 invariant -1 <= rangeindex && rangeindex <= 4
+//@   loop 0 invariant len(src) == ite(rangeindex == -1, 36, ite(rangeindex == 0, 28, ite(rangeindex == 1, 23, ite(rangeindex == 2, 18, ite(rangeindex == 3, 13, 0)))))
+//@   loop 0 invariant len(dst) == ite(rangeindex == -1, 16, ite(rangeindex == 0, 12, ite(rangeindex == 1, 10, ite(rangeindex == 2, 8, ite(rangeindex == 3, 6, 0)))))
+
+//@ func (*UUID).decodeHashLike
+//@   props C16
+//@   requires len(t) == 32
+
+// Text forms of the enumerations: UnmarshalText maps every documented name (same ExifTool tables as the String contracts
+// above, so UnmarshalText(MarshalText(v)) == v for every documented member follows from the two contracts) and maps every
+// other text to the zero member.
+//@ func (*MeteringMode).UnmarshalText
+//@   props C16
+//@   modifies *mm
+//@   ensures [C16] err == nil
+//@   ensures [C16] enumParse(text, *mm, 0, "Unknown", 0, "Average", 1, "Center-weighted average", 2, "Spot", 3, "Multi-spot", 4, "Multi-segment", 5, "Partial", 6, "Other", 255)
+
+//@ func (*ExposureMode).UnmarshalText
+//@   props C16
+//@   modifies *em
+//@   ensures [C16] err == nil
+//@   ensures [C16] enumParse(text, *em, 0, "Auto", 0, "Manual", 1, "Auto bracket", 2)
+
+//@ func (*ExposureProgram).UnmarshalText
+//@   props C16
+//@   modifies *ep
+//@   ensures [C16] err == nil
+//@   ensures [C16] enumParse(text, *ep, 0, "Not Defined", 0, "Manual", 1, "Program AE", 2, "Aperture-priority AE", 3, "Shutter speed priority AE", 4, "Creative (Slow speed)", 5, "Action (High speed)", 6, "Portrait", 7, "Landscape", 8, "Bulb", 9)
+
+// Binary form of UUID: exactly 16 bytes, copied verbatim in both directions.
+//@ func (*UUID).UnmarshalBinary
+//@   props C16
+//@   modifies *u
+//@   ensures [C16] len(data) != 16 ==> err != nil
+//@   ensures [C16] len(data) == 16 ==> err == nil && (*u)[0] == old(data[0]) && (*u)[1] == old(data[1]) && (*u)[2] == old(data[2]) && (*u)[3] == old(data[3]) && (*u)[4] == old(data[4]) && (*u)[5] == old(data[5]) && (*u)[6] == old(data[6]) && (*u)[7] == old(data[7]) && (*u)[8] == old(data[8]) && (*u)[9] == old(data[9]) && (*u)[10] == old(data[10]) && (*u)[11] == old(data[11]) && (*u)[12] == old(data[12]) && (*u)[13] == old(data[13]) && (*u)[14] == old(data[14]) && (*u)[15] == old(data[15])
+
+//@ func UUID.MarshalBinary
+//@   props C16
+//@   ensures [C16] err == nil && len(data) == 16 && data[0] == u[0] && data[1] == u[1] && data[2] == u[2] && data[3] == u[3] && data[4] == u[4] && data[5] == u[5] && data[6] == u[6] && data[7] == u[7] && data[8] == u[8] && data[9] == u[9] && data[10] == u[10] && data[11] == u[11] && data[12] == u[12] && data[13] == u[13] && data[14] == u[14] && data[15] == u[15]
